@@ -28,7 +28,15 @@ Sealed == /\ Ev.ev = "sealed"
           /\ (Ev.cls = "r" /\ Ev.key = 0) => Ev.seq > Wrap \div 2  \* before the wrap: high numbers
           /\ (Ev.cls = "r" /\ Ev.key = 1) => Ev.seq < Wrap \div 2  \* after the wrap: restarted
           /\ seen' = seen \cup {<<Ev.key, Ev.cls, Ev.seq>>}
-TraceNext == l <= Len(Trace) /\ l' = l + 1 /\ (Reset \/ Sealed)
+(*   {"ev":"sealed2","key":K,"cls":C,"seq":N}   histories with repeated key set-ups (fresh client keys, a request *)
+(*   that is served a second time): K is the driver's number for the out key the frame was sealed with (read from  *)
+(*   the session right after the seal).  Whatever is set up again and how often: no (key, class, number) twice.    *)
+Sealed2 == /\ Ev.ev = "sealed2"
+           /\ <<Ev.key, Ev.cls, Ev.seq>> \notin seen
+           /\ Ev.seq >= 1
+           /\ seen' = seen \cup {<<Ev.key, Ev.cls, Ev.seq>>}
+Rekey == Ev.ev = "rekey" /\ UNCHANGED seen
+TraceNext == l <= Len(Trace) /\ l' = l + 1 /\ (Reset \/ Sealed \/ Sealed2 \/ Rekey)
 
 TraceAccepted ==
   LET d == TLCGet("stats").diameter
